@@ -142,7 +142,7 @@ def judge_value(ctx, case):
         if c in ('uint', 'int', 'uintbe', 'intbe', 'uintle', 'intle', 'float', 'floatle') and K.valid_length(c, n):
             routes['prop'] = ('assign-sized', lambda o: setattr(o, name, pv))
         elif c in ('hex', 'oct', 'bin') and isinstance(pv, str):
-            digits_ok = all(ch in {'hex': '0123456789abcdefABCDEF', 'oct': '01234567', 'bin': '01'}[c] for ch in pv)
+            digits_ok = all(ch in {'hex': '0123456789abcdefABCDEF', 'oct': '01234567', 'bin': '01'}[c] + ' _' for ch in pv)
             routes['prop'] = ('assign-digits', digits_ok)
         if (ok or reason == 'value') and n != 0:
             routes['Array-set'] = ('array', None)
